@@ -279,7 +279,8 @@ Definition is_gapfill (m : minput) : bool := match mi_gapfill m with FVal true =
 (* codes: 401 gap in normal operation not answered by exactly the right request / message not kept;
    402 a request while recovering that is not the next chunk at the expected number; 403 a kept message that is next in
    sequence was not delivered; 404 still recovering although the expected number is past the range; 405 a kept application
-   message was dropped: the expected number passed it without a hand-over; 406 a timer event changed the recovery bookkeeping *)
+   message was dropped: the expected number passed it without a hand-over; 406 a timer event changed the recovery bookkeeping; 407 an early message
+   arriving during a recovery was not kept *)
 Definition stash_keys (s : sshape) : list Z := match sh_unwrap s with ShResend true keys _ _ => keys | _ => [] end.
 Definition kept_lookup (k : Z) (kept : list (Z * minput)) : option minput :=
   match find (fun e => fst e =? k) kept with Some (_, m) => Some m | None => None end.
@@ -365,6 +366,23 @@ Fixpoint c04_scan (c : cfg) (i : nat) (kept : list (Z * minput)) (prev : obs) (t
                 end
               else []) (stash_keys (ob_st prev))
           else [])
+      (* 407: while recovering, a sequence-gated message above the expected number that passes the header checks is kept
+         under its number, whatever started the recovery (a gap on the Logon included): nothing is requested, the expected
+         number stays *)
+      ++ (match e with
+          | EIncoming m =>
+              match mi_seq m with
+              | FVal n =>
+                  if sh_is_resend (ob_st prev) && sh_logged_on (ob_st prev) && (ob_inbuf prev =? 0)
+                     && gated_type (mi_type m) && msg_passes_header c (ob_tgt prev) m && (ob_tgt prev <? n)
+                  then if existsb (Z.eqb n) (stash_keys (ob_st o)) && (ob_tgt o =? ob_tgt prev)
+                          && Nat.eqb (length (resend_requests (ob_wire o))) 0
+                       then [] else [(i, 407)]
+                  else []
+              | _ => []
+              end
+          | _ => []
+          end)
       ++ c04_scan c (S i)
            (match e with
             | EIncoming m => match mi_seq m with
